@@ -56,6 +56,11 @@ fn main() {
         println!("[{}] campaign {:<14} engine {:<6} evaluations {:>8} distinct non-trivial {:>8} wall {:>6.1}s{}", property, report.name, report.engine, report.evaluations, report.distinct_nontrivial, report.wall_s,
             if report.other_property_failures.is_empty() { String::new() } else { format!("  (oracles of other properties failed: {:?})", report.other_property_failures) });
     }
+    for finding in known.iter().filter(|finding| finding.also.contains(&property) && finding.status == "open") {
+        if let Some(count) = known_hit.get(&finding.id) {
+            println!("KNOWN-FINDING: property={} {} [{}; listed under {}; tags {:?}; met {} times]", property, finding.what, finding.id, finding.property, finding.tags, count);
+        }
+    }
     for finding in known.iter().filter(|finding| finding.property == property && finding.status == "open") {
         match known_hit.get(&finding.id) {
             Some(count) => println!("KNOWN-FINDING: property={} {} [{}; tags {:?}; reproduced {} times by the probe]", property, finding.what, finding.id, finding.tags, count),
